@@ -172,7 +172,8 @@ pub fn standard_components() -> Value {
     json!({
         "real": [
             "all of gamedig crates/lib (protocol clients, parsers, Buffer, retry/gather logic, socket.rs incl. apply_timeout, send, receive, read_to_end)",
-            "games::query dispatch and the macro-generated game modules"
+            "games::query dispatch and the macro-generated game modules",
+            "the HTTP client ureq 2.12.1 (request writing, response parsing, framing, gzip, redirects, pool), with its TcpStream and Instant swapped for the simulator's (vendor/ureq, vendor/verif_net)"
         ],
         "simulated": [
             "operating-system socket API (std::net inside socket.rs swapped for the simulator backend under --cfg gamedig_verif)",
@@ -180,6 +181,6 @@ pub fn standard_components() -> Value {
             "virtual clock (timeouts cost no wall time)",
             "game / master servers (reference models and hostile scripts)"
         ],
-        "stubbed": ["ureq HTTP transport (Eco only): served at the HttpClient seam"]
+        "stubbed": ["in some Eco cases the whole HTTP request is served at the HttpClient seam instead (request-level stub; the other Eco cases run the real HTTP client)"]
     })
 }
